@@ -30,6 +30,7 @@ RULE = ("randsphere: boxes [ra_lo,ra_hi] x [dec_lo,dec_hi] inside [0,360] x [-90
         "pole or the seam or with r > 90 deg, get_radius with rotation, u equal to a tabulated cumulative value, "
         "covariance with n >= 3, unique indices with nrand > imax/2. Distinct = distinct case JSON."
         " Also: integer-typed grids for Generator; cap centres given as 0-d / one-element arrays that are handed over again in the repeated calls.")
+RULE += (" " + 'Also (generator): one tabulated density in five is a Gaussian tabulated 5..30 sigma into one or both tails (float64 cumulative saturates inside the grid) with u=0 and u=1 added; functional densities given as a plain function or a bound method.')
 ASSUMPTIONS = [
     "support and the deterministic deviate->value map are tested, not uniformity (DESIGN.md section 6)",
     "cap tolerance r + 2e-6 deg + 1e-9 r: the arccos conditioning of the documented algorithm (the statement gives "
